@@ -21,10 +21,20 @@ import (
 func c09FallBack(c *core.Ctx) {
 	p := c.P
 	n := 0
-	for _, fn := range p.FuncsIn(core.ModPath + "/fw/fw") {
-		if fn.Name() != "AfterReceiveInterest" || fn.Blocks == nil || strings.HasSuffix(p.File(fn.Pos()), "_test.go") {
+	var fns []*ssa.Function
+	for _, root := range p.FuncsIn(core.ModPath + "/fw/fw") {
+		if root.Name() != "AfterReceiveInterest" || root.Blocks == nil || strings.HasSuffix(p.File(root.Pos()), "_test.go") {
 			continue
 		}
+		// the loop may sit in a private worker of the callback (forwardToBestNexthop)
+		for _, g := range core.Reach(root) {
+			if g.Blocks != nil && g.Pkg == root.Pkg {
+				fns = append(fns, g)
+			}
+		}
+	}
+	for _, fn := range fns {
+		fn := fn
 		core.Instrs(fn, func(in ssa.Instruction) {
 			cs, ok := in.(*ssa.Call)
 			if !ok {
